@@ -105,4 +105,3 @@ func truncate(s string, n int) string {
 	return s
 }
 
-func cmdCheck(args []string) {}
